@@ -593,9 +593,9 @@ class Engine:
             rng = z3.And(i >= lo, i < hi)
             b = body_at(x, rng=rng)
             for p in lifted:
-                lp = _select_patterns(p, i)
+                lp = _select_patterns(p, i, getattr(self, 'uf_patterns', False))
                 s.assume(z3.ForAll([i], z3.Implies(rng, p), **({"patterns": lp} if lp else {})))
-            pats = _select_patterns(b, i)
+            pats = _select_patterns(b, i, getattr(self, 'uf_patterns', False))
             kw = {"patterns": pats} if pats else {}
             q = z3.ForAll([i], z3.Implies(rng, b), **kw) if is_all else z3.Exists([i], z3.And(rng, b), **kw)
             outs.append((s, VBool(q)))
@@ -737,7 +737,18 @@ class Engine:
         m = getattr(self, "st_" + type(stmt).__name__, None)
         if m is None:
             raise Unsupported(f"statement {type(stmt).__name__} at {self.origin(stmt)}")
-        return m(stmt, st)
+        outs = m(stmt, st)
+        hooks = getattr(self, "ghost_hooks", None)
+        if hooks and not isinstance(stmt, (ast.For, ast.While, ast.If, ast.Try)):
+            src = None
+            for prefix, fn, *_w in hooks:
+                if src is None:
+                    src = ast.unparse(stmt)
+                if src.startswith(prefix):
+                    for o in outs:
+                        if o.kind == "normal":
+                            fn(self, o.st)   # ghost code: may only touch ghost variables / ghost heap fields
+        return outs
 
     def st_Pass(self, stmt, st):
         return [Outcome("normal", st)]
@@ -1070,7 +1081,7 @@ class Engine:
         return VStr(r)
 
 
-def _select_patterns(body, var):
+def _select_patterns(body, var, uf=False):
     """every array read / unary UF application whose argument mentions the bound variable, as alternative patterns"""
     pats, seen, stack = [], set(), [body]
     def mentions(t):
@@ -1090,6 +1101,10 @@ def _select_patterns(body, var):
             continue
         seen.add(t.get_id())
         if z3.is_select(t) and mentions(t.arg(1)) and not mentions(t.arg(0)) and "if(" not in t.arg(1).sexpr().replace(" ", "").replace("ite", "if("):
+            if not any(z3.eq(t, p) for p in pats):
+                pats.append(t)
+            continue
+        if uf and z3.is_app(t) and t.decl().kind() == z3.Z3_OP_UNINTERPRETED and t.num_args() == 1 and z3.eq(t.arg(0), var):
             if not any(z3.eq(t, p) for p in pats):
                 pats.append(t)
             continue
